@@ -24,6 +24,9 @@ def dispatch (s : DState) (line : String) : DState × String :=
       | "decm" :: rest => chkDec false s rest
       | "c17" :: rest => (s, chkC17 rest)
       | "bld" :: rest => (s, chkBld rest)
+      | "exp" :: rest =>
+        let (t, o) := chkExp s.specExp rest
+        ({ s with specExp := t }, o)
       | _ => (s, "na")
     else (s, "bad-op")
 
